@@ -43,7 +43,7 @@ PROBES = ["overloads_same_param_names", "optional_param_member", "class_missing_
           "xml_member_has_extra_optional_param", "overloads_with_permuted_param_names",
           "literals_crosschecked_with_gpp", "binding_after_fault_on_its_file", "text_longer_than_512", "decoy_class_with_similar_name",
           "decoy_member_with_similar_name", "param_documented_without_text", "param_item_without_name",
-          "section_ahead_of_return", "return_section_partial"]
+          "section_ahead_of_return", "return_section_partial", "truncation_left_document_wellformed"]
 
 
 def batches(tier):
@@ -597,6 +597,15 @@ def run_case(tape, batch):
         if f is None:
             return None
         kind, arg = f
+        if kind == "truncated":
+            # cutting only trailing white space leaves a well-formed document: that is no fault at all
+            import xml.etree.ElementTree as _ET
+            try:
+                _ET.fromstring(w.files.get(path, b"")[:arg % max(1, len(w.files.get(path, b"")))])
+                w.probe("truncation_left_document_wellformed")
+                return None
+            except _ET.ParseError:
+                pass
         faulted_paths.setdefault(path, len(w.log))      # first fault on this file, by event-log position
         w.probe("fault_on_index_open" if path.endswith("/index.xml") else "fault_on_class_open")
         data = w.files.get(path, b"")
